@@ -47,7 +47,11 @@ SHAPES = ["", "word", "0", "7", "-3", "2.5", "1e3", "1e400", "999999999999", "9e
           "7^30000000", "2^2^2^2^2^2", "1e9^1e9", "99999999999999999999*99999999999999999999", "1 round 99999999",
           "exp 1000", "10 mod 3", "1/0", "trunc 1e300", "xrU", "xg xn xjj", "U", "D, d M Y", "-1e400", "0x10", "1.5e-400",
           "9999999999999999999999999999999999999999",
-          "9" * 4301]     # more digits than int() converts
+          "9" * 4301,     # more digits than int() converts
+          # markup-bearing arguments with long attribute lists (what #iferror and the tag functions look through)
+          '<span class="' + " ".join("c%d" % i for i in range(32)) + '">x</span>',
+          '<strong class="error ' + " ".join("k%d" % i for i in range(32)) + '">e</strong>',
+          '<div ' + " ".join('a%d="v"' % i for i in range(40)) + '>d</div>']
 
 
 EXPR_OPERANDS = ["0", "1", "7", "-3", "2.5", "(0-7)", "99999999", "-99999999", "(0-99999999)", "1e7", "-1e7", "1e400",
